@@ -28,7 +28,7 @@ T0_POOL = {
 }
 
 
-def read_filtered(path, types, tr, sources, max_bytes, flags, require_p1=False, style=0):
+def read_filtered(path, types, tr, sources, max_bytes, flags, require_p1=False, style=0, via='ctor'):
     """style: how the caller spells the same request (enum list / payload classes / single value; read_next loop / iteration)."""
     from fusion_engine_client.parsers import MixedLogReader
     from fusion_engine_client.messages import MessageType, message_type_to_class
@@ -52,6 +52,11 @@ def read_filtered(path, types, tr, sources, max_bytes, flags, require_p1=False, 
             fobj = open(path, 'rb')
             r = MixedLogReader(fobj, num_threads=1, time_range=tr, source_ids=sources, max_bytes=max_bytes, message_types=mt, **kw)
             other = MixedLogReader(fobj, num_threads=1, return_header=True, return_payload=False)
+        elif via == 'filter_in_place' and tr is not None:
+            # the same criterion stated on a reader before its first read (the caller's TimeRange object is handed over as it is)
+            r = MixedLogReader(path, num_threads=1, source_ids=sources, max_bytes=max_bytes, message_types=mt, **kw)
+            r.filter_in_place(tr)
+            other = None
         else:
             r = MixedLogReader(path, num_threads=1, time_range=tr, source_ids=sources, max_bytes=max_bytes, message_types=mt, **kw)
             other = None
@@ -159,10 +164,15 @@ def intent_text(trd):
     return ','.join(['r', f(s), f(e), f(trd.get('t0'))])
 
 
-def one_case(ctx, data, path, msgs, lines, pending, flags=None, fixed=None):
+def one_case(ctx, data, path, msgs, lines, pending, flags=None, fixed=None, shared=None):
     rng = ctx.rng
     alltypes = sorted(set(m['type'] for m in msgs)) or [10000]
-    if fixed is not None:       # a recorded case (corpus / replay)
+    via = 'ctor'
+    rt_before = None
+    if shared is not None:      # criteria OBJECTS the caller built once and uses for several logs
+        types, (tr, trd), sources, max_bytes, via = shared['types'], shared['range'], shared['sources'], None, shared['via']
+        rt_before = rc.range_text(tr, exact=True)
+    elif fixed is not None:       # a recorded case (corpus / replay)
         types, trd, sources, max_bytes = fixed['types'], fixed['time_range'], fixed['sources'], fixed['max_bytes']
         tr = range_from_dict(trd)
         flags = tuple(fixed.get('flags', [True, False, False, True, True]))
@@ -180,8 +190,10 @@ def one_case(ctx, data, path, msgs, lines, pending, flags=None, fixed=None):
         flags = tuple(rng.random() < 0.6 for _ in range(5))
     require_p1 = False      # read_next(require_p1_time=...) is not one of the property's criteria (a NaN P1 time counts as present there)
     style = (fixed or {}).get('style', rng.randrange(6) + 6 * rng.choice([0, 0, 0, 1, 2]))
-    res = read_filtered(path, types, tr, sources, max_bytes, flags, require_p1, style)
-    rt = rc.range_text(tr, exact=True)     # what the constructed TimeRange object says (input of the literal model)
+    if fixed is not None and fixed.get('via'):
+        via = fixed['via']
+    res = read_filtered(path, types, tr, sources, max_bytes, flags, require_p1, style, via)
+    rt = rt_before or rc.range_text(tr, exact=True)     # what the constructed TimeRange object says (input of the literal model)
     it = intent_text(trd)                  # what was asked for (input of the specification)
     fmt = '%s %s %%s %s %s' % (rc.log_text(msgs), '-' if types is None else ','.join(map(str, types)),
                                '-' if sources is None else ','.join(map(str, sources)), 'n' if max_bytes is None else max_bytes)
@@ -189,6 +201,11 @@ def one_case(ctx, data, path, msgs, lines, pending, flags=None, fixed=None):
     lines.append('rdspec ' + (fmt % it))
     replay = {'file': data.hex(), 'types': types, 'time_range': trd, 'sources': sources, 'max_bytes': max_bytes, 'flags': list(flags),
               'require_p1': require_p1, 'style': style}
+    if via != 'ctor':
+        replay['via'] = via
+    if shared is not None:
+        replay['criteria_objects_used_before_on'] = list(shared['used_on'])
+        shared['used_on'].append(data.hex())
     pending.append((replay, res, flags, msgs, data))
 
 
@@ -331,6 +348,29 @@ def run(ctx, budget):
         if rng.random() < (0.5 if ctx.thorough else 0.12):
             for flags in itertools.product([False, True], repeat=5):
                 one_case(ctx, data, path, msgs, lines, pending, flags=flags)
+    # criteria objects built once and used for several logs (a script that loops over a directory of logs with one TimeRange,
+    # one list of types, one list of source ids): what the second log returns must not depend on the first. The logs start at
+    # different P1 times; the range is handed to the constructor or to filter_in_place() of a fresh reader.
+    for k in range(max(4, budget // 6)):
+        logs = []
+        for base in rng.sample(T0_POOL['boot'] + T0_POOL['days'] + T0_POOL['gps'], 3 if k % 3 == 0 else 2):
+            d = rc.make_log(rng, rng.choice([6, 10, 16]), sources=(0, 1), t_start=base, t_max=T_MAX)
+            pth = ic.write_log(d, 'c10_shared_%d_%d.p1log' % (k, len(logs)))
+            try:
+                logs.append((d, pth, rc.unfiltered(pth, exact=True)))
+            except BaseException:
+                pass
+        if len(logs) < 2:
+            continue
+        for _try in range(8):
+            rg = make_range(rng, logs[0][2])
+            if rg[1]['kind'] == ('rel' if k % 4 != 3 else rg[1]['kind']):
+                break
+        shared = {'types': rng.choice([None, None, [10000], [10000, 10001]]), 'range': rg, 'sources': rng.choice([None, None, [0], [0, 1]]),
+                  'via': 'filter_in_place' if k % 2 == 0 else 'ctor', 'used_on': []}
+        for d, pth, ms in logs + logs[:1]:
+            one_case(ctx, d, pth, ms, lines, pending, shared=shared)
+            ctx.count('reads_with_criteria_objects_shared_between_logs')
     # a byte-limited read as the FIRST reader of a fresh log (no index file yet; small block constants so that the limited
     # index really is partial) must not influence what later readers of the same file return
     later = []
@@ -397,7 +437,17 @@ def replay(ctx, path):
     data = bytes.fromhex(r['file'])
     p = ic.write_log(data)
     lines, pending = [], []
-    one_case(ctx, data, p, rc.unfiltered(p, exact=True), lines, pending, fixed=r)
+    if r.get('criteria_objects_used_before_on') is not None:
+        # the criteria objects are built once and used on the earlier logs first, as in the recorded run
+        shared = {'types': r['types'], 'range': (range_from_dict(r['time_range']), r['time_range']), 'sources': r['sources'],
+                  'via': r.get('via', 'ctor'), 'used_on': []}
+        for k, h in enumerate(r['criteria_objects_used_before_on']):
+            d0 = bytes.fromhex(h)
+            p0 = ic.write_log(d0, 'c10_replay_%d.p1log' % k)
+            one_case(ctx, d0, p0, rc.unfiltered(p0, exact=True), [], [], flags=tuple(r['flags']), shared=shared)
+        one_case(ctx, data, p, rc.unfiltered(p, exact=True), lines, pending, flags=tuple(r['flags']), shared=shared)
+    else:
+        one_case(ctx, data, p, rc.unfiltered(p, exact=True), lines, pending, fixed=r)
     outs = ctx.driver(lines)
     judge(ctx, *pending[0], outs[0], outs[1])
     return fv.finish(ctx, 'proof', None)
